@@ -103,6 +103,8 @@ def compare_value(kind, espec, driver_value, client_value, where, blob_mode="equ
         except (ValueError, TypeError):
             raise Failure("mirror-value:Number-not-a-number", f"{where}: client holds {client_value!r}, driver {driver_value!r}")
         fmt = espec["format"]
+        if not refnum.conforms(str(client_value), fmt):
+            raise Failure("mirror-value:Number-not-in-format", f"{where}: client holds {client_value!r}, which is not how format {fmt!r} renders a number (driver {driver_value!r})")
         tol = refnum.resolution(fmt) * (1 + 1e-9) + abs(driver_value) * 1e-12
         if abs(denoted - driver_value) > tol:
             raise Failure("mirror-value:Number", f"{where}: client holds {client_value!r} (= {denoted}), driver {driver_value!r}, format {fmt}")
@@ -128,10 +130,14 @@ def compare_value(kind, espec, driver_value, client_value, where, blob_mode="equ
             raise Failure(f"mirror-value:{kind}", f"{where}: client holds {client_value!r}, driver {driver_value!r}")
 
 
-def compare_views(dep, client, blob_mode=None, who="client"):
-    """Set equality both ways + metadata + values. blob_mode: callable (dev, vec, el) -> mode, or None = 'equal'."""
+def compare_views(dep, client, blob_mode=None, who="client", only=None, blob_state=True):
+    """Set equality both ways + metadata + values. blob_mode: callable (dev, vec, el) -> mode, or None = 'equal'.
+    only: restrict the comparison to one device name (a snooper is only answerable for the device it snoops)."""
     want = expected_view(dep)
     got = client_view(client)
+    if only is not None:
+        want = {k: v for k, v in want.items() if k == only}
+        got = {k: v for k, v in got.items() if k == only}
     if sorted(got) != sorted(want):
         raise Failure(f"{who}-devices", f"{who} sees devices {sorted(got)}, expected {sorted(want)}")
     for dn in want:
@@ -142,6 +148,8 @@ def compare_views(dep, client, blob_mode=None, who="client"):
         for vn, w in want[dn].items():
             g = got[dn][vn]
             for f in ("kind", "state", "label", "group"):
+                if f == "state" and w["kind"] == "BLOB" and not blob_state:
+                    continue  # a BLOB property's state travels in setBLOBVector, which this observer's policy excludes
                 if str(g[f]) != str(w[f]):
                     raise Failure(f"{who}-metadata:{f}", f"{dn}.{vn}: {f}={g[f]!r}, expected {w[f]!r}")
             if sorted(g["elements"]) != sorted(w["elements"]):
